@@ -315,6 +315,18 @@ class Check:
         self.tlc_cmds = []
         self.known = [k for k in load_known() if k['property'] == pid]
         self.drift = 0
+        # --replay <file>: the check is re-run (same tier and seed as recorded
+        # in the file) and only the recorded violation key is looked for
+        self.replay_key = None
+        if self.args.replay:
+            with open(self.args.replay) as f:
+                rec = json.load(f)
+            self.replay_key = rec['key']
+            self.tier = rec.get('tier', self.tier)
+            self.quick = self.tier == 'quick'
+            self.seed = rec.get('seed', self.seed)
+            print('replaying %s (tier %s, seed %d): looking for %s' % (
+                self.args.replay, self.tier, self.seed, self.replay_key))
 
     # ---- accounting
     def add_model(self, r, what=None):
@@ -362,6 +374,8 @@ class Check:
         for key, what, replay in self.violations:
             if key in seen:
                 continue
+            if self.replay_key is not None and key != self.replay_key:
+                continue
             seen.add(key)
             nviol += 1
             if nviol > 25:
@@ -371,6 +385,7 @@ class Check:
             path = os.path.join(rdir, name + '.json')
             with open(path, 'w') as f:
                 json.dump({'property': self.pid, 'key': key, 'what': what,
+                           'tier': self.tier, 'seed': self.seed,
                            'replay': replay}, f, indent=1, default=str)
             print('VIOLATION property=%s replay=%s  # %s' %
                   (self.pid, path, what))
